@@ -1045,3 +1045,35 @@ func (c *Ctx) argNotConstUnder(p *Program, rule, what string, f *ssa.Function, v
 		c.ok(rule, construct, fmt.Sprintf("argument %d of %s is not a constant at %s", argIdx, callee, strings.Join(tops, ", ")), p.fnPos(f))
 	}
 }
+
+// mayAccept: with the given abstract arguments some exit of f reports success (the dual of a must-reject
+// boundary rule: the largest legal value is not refused).
+func (c *Ctx) mayAccept(p *Program, rule, what string, f *ssa.Function, args map[string]lat) {
+	if f == nil {
+		c.undecided(rule, what, "anchor function does not resolve", "")
+		return
+	}
+	construct := fname(f) + ": " + what
+	q := &GuardQuery{P: p, Root: f, MaxDepth: 1}
+	q.Args = make([]lat, len(f.Params))
+	for i := range q.Args {
+		q.Args[i] = latTop
+	}
+	for n, v := range args {
+		i := paramIdx(f, n)
+		if i < 0 {
+			c.undecided(rule, construct, "parameter "+n+" does not exist", p.fnPos(f))
+			return
+		}
+		q.Args[i] = v
+	}
+	r := runGuard(q)
+	succ := succAuto(f)
+	for _, ri := range r.Returns {
+		if ri.Instr.Parent() == f && succ.may(ri.Vals) {
+			c.ok(rule, construct, "a success exit is reachable at "+p.pos(ri.Instr.Pos()), p.fnPos(f))
+			return
+		}
+	}
+	c.bad(rule, construct, "no exit reports success for these arguments: a legal value is refused", p.fnPos(f))
+}
